@@ -657,9 +657,13 @@ func runParent(prop, tier string) int {
 	knownSeen := []string{}
 	for _, s := range sigs {
 		v := viols[s]
-		cmd := exec.Command(v.bin, "replay", v.replay)
-		cmd.Env = append(os.Environ(), "VERIF_REPLAY_CONFIRM=1", "GORACE=halt_on_error=1 exitcode=66")
-		outb, err := cmd.CombinedOutput()
+		var outb []byte
+		var err error
+		if !strings.Contains(s, ".hang|") { // (a hang is confirmed by a replay under a time limit, below)
+			cmd := exec.Command(v.bin, "replay", v.replay)
+			cmd.Env = append(os.Environ(), "VERIF_REPLAY_CONFIRM=1", "GORACE=halt_on_error=1 exitcode=66")
+			outb, err = cmd.CombinedOutput()
+		}
 		outs := string(outb)
 		confirmed := false
 		if strings.Contains(s, ".process-death|") || strings.Contains(s, ".data-race|") {
